@@ -24,6 +24,11 @@ enum Ans {
     Bytes(usize),
     Interrupted,
     Error,
+    /// hard errors of other kinds: only EINTR may be retried
+    WouldBlock,
+    TimedOut,
+    UnexpectedEof,
+    InvalidData,
 }
 
 impl Ans {
@@ -33,6 +38,10 @@ impl Ans {
             Ans::Bytes(n) => json!({"bytes": n}),
             Ans::Interrupted => json!("EINTR"),
             Ans::Error => json!("error"),
+            Ans::WouldBlock => json!("WouldBlock"),
+            Ans::TimedOut => json!("TimedOut"),
+            Ans::UnexpectedEof => json!("UnexpectedEof"),
+            Ans::InvalidData => json!("InvalidData"),
         }
     }
     fn from_json(v: &Value) -> Ans {
@@ -42,6 +51,10 @@ impl Ans {
             match v.as_str() {
                 Some("EINTR") => Ans::Interrupted,
                 Some("error") => Ans::Error,
+                Some("WouldBlock") => Ans::WouldBlock,
+                Some("TimedOut") => Ans::TimedOut,
+                Some("UnexpectedEof") => Ans::UnexpectedEof,
+                Some("InvalidData") => Ans::InvalidData,
                 _ => Ans::Fill,
             }
         }
@@ -67,9 +80,16 @@ impl<'a> Read for Scripted<'a> {
         let remaining = self.data.len() - self.pos;
         let n = match a {
             Ans::Interrupted => return Err(std::io::Error::new(std::io::ErrorKind::Interrupted, "scripted EINTR")),
-            Ans::Error => {
+            Ans::Error | Ans::WouldBlock | Ans::TimedOut | Ans::UnexpectedEof | Ans::InvalidData => {
                 self.error_delivered = true;
-                return Err(std::io::Error::new(std::io::ErrorKind::Other, "scripted I/O error"));
+                let kind = match a {
+                    Ans::WouldBlock => std::io::ErrorKind::WouldBlock,
+                    Ans::TimedOut => std::io::ErrorKind::TimedOut,
+                    Ans::UnexpectedEof => std::io::ErrorKind::UnexpectedEof,
+                    Ans::InvalidData => std::io::ErrorKind::InvalidData,
+                    _ => std::io::ErrorKind::Other,
+                };
+                return Err(std::io::Error::new(kind, "scripted I/O error"));
             }
             Ans::Fill => remaining.min(buf.len()),
             Ans::Bytes(k) => k.max(1).min(remaining).min(buf.len()),
@@ -196,6 +216,10 @@ fn alternatives(data: &[u8], pos: usize, blen: usize, entry: Entry) -> Vec<Ans> 
     }
     v.push(Ans::Interrupted);
     v.push(Ans::Error);
+    // the other error kinds only on small inputs (the code path does not depend on the data)
+    if data.len() <= 16 {
+        v.extend([Ans::WouldBlock, Ans::TimedOut, Ans::UnexpectedEof, Ans::InvalidData]);
+    }
     v
 }
 
@@ -396,7 +420,7 @@ fn main() {
          straddling the 8 KiB buffer boundary; x 6 algorithms x hash_file / hash_patch (hash_str for \
          text). Read schedules by a scripted reader: the default, then every schedule with <= D \
          deviations {1 byte, half, all-but-one, inside the next marker, just after the next \
-         newline, EINTR, hard error} at every read call; for inputs <= 10 bytes every composition \
+         newline, EINTR, hard error (kinds Other, WouldBlock, TimedOut, UnexpectedEof, InvalidData)} at every read call; for inputs <= 10 bytes every composition \
          into reads with and without one EINTR before each read. Oracle: RustCrypto one-shot digest \
          of the (filtered) input, Err(Io) iff a hard error was delivered. Name table: every case \
          variant, canonical printing, every edit-distance-1 string. Non-trivial = schedules with \
@@ -427,6 +451,38 @@ fn main() {
         }
         for entry in [Entry::File, Entry::Patch] {
             jobs.push(Job { data: pattern_bytes(len), entry, bound: run.pick(1, 2), compositions: false });
+        }
+    }
+    // scale: sizes around every power of two up to 1 MiB (block, buffer and chunk thresholds)
+    for k in 9..=20u32 {
+        for d in [-1i64, 0, 1] {
+            let len = ((1i64 << k) + d) as usize;
+            if [8191usize, 8192, 8193].contains(&len) {
+                continue;
+            }
+            for entry in [Entry::File, Entry::Patch] {
+                jobs.push(Job { data: pattern_bytes(len), entry, bound: if k <= 14 { 1 } else { 0 }, compositions: false });
+            }
+        }
+    }
+    // large patch inputs: many lines with a marker line every 97th, and lines longer than 64 KiB
+    {
+        let mut many = vec![];
+        for i in 0..run.pick(3000, 20000) {
+            if i % 97 == 5 {
+                many.extend_from_slice(format!("# $NetBSD: file{},v 1.{} $\n", i, i).as_bytes());
+            } else {
+                many.extend_from_slice(format!("+line {} of the patch\n", i).as_bytes());
+            }
+        }
+        jobs.push(Job { data: many.clone(), entry: Entry::Patch, bound: 1, compositions: false });
+        jobs.push(Job { data: many, entry: Entry::File, bound: 0, compositions: false });
+        for pad in [65_529usize, 65_536, 70_000, 131_072] {
+            let mut c = vec![b'w'; pad];
+            c.extend_from_slice(b" $NetBSD$\nkept\n");
+            c.extend_from_slice(&vec![b'k'; pad]);
+            c.extend_from_slice(b"\nlast $NetBSD");
+            jobs.push(Job { data: c, entry: Entry::Patch, bound: 1, compositions: false });
         }
     }
     let pi = patch_inputs(run.pick(3, 4));
